@@ -192,6 +192,10 @@ func RandomHistory(w *World, rng *rand.Rand, o HistOpts) {
 			}
 			w.Do(Op{K: "AppendSample", A: []int{vi, int(w.NextStamp())}})
 		case "SetSample":
+			if isFloatTy(v.Ty()) && v.Len() > 0 && rng.Intn(3) == 0 {
+				w.signFlip(vi, rng.Intn(v.Len()), -1, 0)
+				continue
+			}
 			i := rng.Intn(v.Len()+2) - 1
 			if rng.Intn(8) != 0 && v.Len() > 0 {
 				i = rng.Intn(v.Len())
